@@ -360,6 +360,14 @@ impl<T: GseDecapMemory, C: CrcCalculator, MHEM: MandatoryHeaderExtensionManager>
 
         let mut header_ext_len: usize = 0;
 
+        // check gse length before reading the fields it has to contain
+        if gse_len < label_len + PROTOCOL_LEN {
+            self.last_label = None;
+            // len_pkt = buffer_len because the label type or the gse length is wrong so the start of the next packet is undefined
+            // the entire buffer can not be proceed and should be dropped
+            return Err((DecapError::ErrorGseLength, buffer_len));
+        }
+
         // read protocol_type
         let mut protocol_type =
             u16::from_be_bytes(buffer[offset..offset + PROTOCOL_LEN].try_into().unwrap());
@@ -416,13 +424,6 @@ impl<T: GseDecapMemory, C: CrcCalculator, MHEM: MandatoryHeaderExtensionManager>
 
         // check pdu buffer size
         let pdu_buffer_len = pdu_buffer.len();
-        if gse_len < label_len + PROTOCOL_LEN {
-            self.last_label = None;
-            self.memory.provision_storage(pdu_buffer).unwrap();
-            // len_pkt = buffer_len because the label type or the gse length is wrong so the start of the next packet is undefined
-            // the entire buffer can not be proceed and should be dropped
-            return Err((DecapError::ErrorGseLength, buffer_len));
-        }
 
         // check buffer size
         if pdu_buffer_len + label_len + header_ext_len + PROTOCOL_LEN < gse_len {
@@ -556,6 +557,14 @@ impl<T: GseDecapMemory, C: CrcCalculator, MHEM: MandatoryHeaderExtensionManager>
         let label_len = label_type.len();
         let mut extensions: Vec<Extension> = vec![];
         let mut is_there_extension_header = false;
+
+        // check gse length before reading the fields it has to contain
+        if gse_len < label_len + PROTOCOL_LEN + FRAG_ID_LEN + TOTAL_LENGTH_LEN {
+            // len_pkt = buffer_len because the label type or the gse length is wrong so the start of the next packet is undefined
+            self.last_label = None;
+            return Err((DecapError::ErrorGseLength, buffer_len));
+        }
+
         // read frag id
         let frag_id = u8::from_be_bytes(buffer[offset..offset + FRAG_ID_LEN].try_into().unwrap());
         offset += FRAG_ID_LEN;
@@ -568,12 +577,6 @@ impl<T: GseDecapMemory, C: CrcCalculator, MHEM: MandatoryHeaderExtensionManager>
         );
         offset += TOTAL_LENGTH_LEN;
 
-        // check buffer size
-        if gse_len < label_len + PROTOCOL_LEN + FRAG_ID_LEN + TOTAL_LENGTH_LEN {
-            // len_pkt = buffer_len because the label type or the gse length is wrong so the start of the next packet is undefined
-            self.last_label = None;
-            return Err((DecapError::ErrorGseLength, buffer_len));
-        }
         // read protocol_type
         let mut protocol_type =
             u16::from_be_bytes(buffer[offset..offset + PROTOCOL_LEN].try_into().unwrap());
@@ -710,13 +713,14 @@ impl<T: GseDecapMemory, C: CrcCalculator, MHEM: MandatoryHeaderExtensionManager>
         let mut offset = FIXED_HEADER_LEN;
         let buffer_len = buffer.len();
 
-        let frag_id = buffer[offset];
-        offset += FRAG_ID_LEN;
-
         if gse_len <= FRAG_ID_LEN {
             self.last_label = None;
             return Err((DecapError::ErrorGseLength, buffer_len));
         }
+
+        let frag_id = buffer[offset];
+        offset += FRAG_ID_LEN;
+
         let calculed_pdu_len = gse_len - FRAG_ID_LEN;
 
         let (mut decap_context, mut pdu) = match self.memory.take_frag(frag_id) {
@@ -759,13 +763,14 @@ impl<T: GseDecapMemory, C: CrcCalculator, MHEM: MandatoryHeaderExtensionManager>
     ) -> Result<(DecapStatus, usize), (DecapError, usize)> {
         let mut offset = FIXED_HEADER_LEN;
         let buffer_len = buffer.len();
-        let frag_id = buffer[offset];
-        offset += FRAG_ID_LEN;
-
         if gse_len < FRAG_ID_LEN + CRC_LEN {
             self.last_label = None;
             return Err((DecapError::ErrorSizeBuffer, buffer_len));
         }
+
+        let frag_id = buffer[offset];
+        offset += FRAG_ID_LEN;
+
         let calculed_pdu_len = gse_len - (FRAG_ID_LEN + CRC_LEN);
 
         let (decap_context, mut pdu) = match self.memory.take_frag(frag_id) {
